@@ -7,9 +7,13 @@ LEAN_MODULE = 'KernProofs.C03'
 THEOREMS = []
 FINGERPRINTS = ['tokens.NoteRestToken.export', 'tokens.ChordToken.export', 'tokens.SimpleToken.export', 'tokenizers.KernTokenizer.tokenize',
                 'tokenizers.EkernTokenizer.tokenize', 'base_antlr_spine_parser_listener', 'exporter.Exporter.export_string',
-                'exporter.Exporter.append_row', 'exporter.Exporter.export_token']
-RULE = ''
-ASSUMPTIONS = []
+                'exporter.Exporter.append_row', 'exporter.Exporter.export_token', 'importer.Importer']
+RULE = ('generated abstract documents of C01\'s grammar (1-4 spines of all supported types, nested splits and joins, comments, every barline type, '
+        'notes/rests/chords with any duration form and any subset/order/position/repetition of the 30 signifiers; quick 60 / thorough 800 documents) '
+        'and generated single cells (quick 600 / thorough 6000): the default export of the real import is compared line by line and cell by cell with '
+        'the expected text computed from the generator\'s own abstract description (an oracle independent of kernpy\'s parser), and with the model; '
+        'non-trivial = document with >= 2 data rows and >= 1 note (cells: note/rest/chord); distinct = distinct document text')
+ASSUMPTIONS = ['the abstract-cell oracle (Spec.cellOut / Spec.cellView) is the reading of "keeps duration marks, pitch letters, accidental and signifiers"']
 
 
 def token_level(ctx, depth, cells):
@@ -26,18 +30,25 @@ def token_level(ctx, depth, cells):
             ctx.fail({'cell': text, 'clause': 'parses'}, 'a cell of the supported grammar is rejected by the kern importer', impl=None, expected='token')
             continue
         impl = call(lambda: TokenizerFactory.create('kern', token_categories=allc).tokenize(t))
-        ctx.count(c['k'])
-        hidden_bar = c['k'] == 'bar' and c.get('hidden')
+        ctx.count('single:' + c['k'])
         ctx.check({'cell': text, 'clause': 'cell export'}, impl, None, r['kern'],
                   nontrivial=c['k'] in ('note', 'rest', 'chord'),
                   what='exported cell is not duration marks + pitch + accidental + sorted set of signifiers (or the verbatim cell)')
 
 
 def explore(ctx, depth):
-    import gen
+    import gen, docrun
     n = 600 if depth == 'quick' else 6000
-    cells = gen.token_stream(ctx.rng, n)
-    token_level(ctx, depth, cells)
+    token_level(ctx, depth, gen.token_stream(ctx.rng, n))
+    cases = docrun.make_cases(ctx, 60 if depth == 'quick' else 800)
+    for case in cases:
+        if case.doc is None:
+            ctx.fail({'text': case.text, 'clause': 'import'}, 'a well-formed document does not import', impl=case.import_result)
+        elif case.errors:
+            ctx.fail({'text': case.text, 'clause': 'import errors'}, 'a well-formed document imports with errors',
+                     impl=[[e.line, e.encoding] for e in case.errors])
+    docrun.run_option_sets(ctx, cases, [{'enc': None, 'include': None, 'exclude': None}], lambda case: [{}],
+                           'default export is not the source grid minus comment lines and all-null lines, cell for cell', 'default export')
 
 
 def replay(ctx, payload):
